@@ -376,6 +376,7 @@ fn cmd_replay_beh(a: &Args) {
 					"c01" => ctx.c01_roundtrip(&mut viols),
 					"c03" => ctx.c03_fields(true, true, &mut viols),
 					"c04" => ctx.c04_oneshot(&mut viols),
+					"wrap" => ctx.c04_wrapped(&mut viols),
 					"inc04" => ctx.incremental("c04", stream::Frag::Whole, &mut viols),
 					"inc12" => {
 						ctx.incremental("c12", stream::Frag::Whole, &mut viols);
@@ -528,6 +529,7 @@ fn cmd_scale(a: &Args) {
 					match c.as_str() {
 						"c01" => ctx.c01_roundtrip(&mut viols),
 						"c04" => ctx.c04_oneshot(&mut viols),
+					"wrap" => ctx.c04_wrapped(&mut viols),
 						"rows" => ctx.rowview(&mut viols),
 						"arrow" => ctx.arrow(&mut viols),
 						"slpp" => ctx.slpp_roundtrip(&[real::Comp::all()[i % 3]], i % 2 == 0, &mut viols),
@@ -559,6 +561,7 @@ fn cmd_scale(a: &Args) {
 				match c.as_str() {
 					"c01" => ctx.c01_roundtrip(&mut viols),
 					"c04" => ctx.c04_oneshot(&mut viols),
+					"wrap" => ctx.c04_wrapped(&mut viols),
 					"rows" => ctx.rowview(&mut viols),
 					"arrow" => ctx.arrow(&mut viols),
 					"slpp" => ctx.slpp_roundtrip(&[real::Comp::all()[i % 3]], i % 2 == 0, &mut viols),
